@@ -4,6 +4,8 @@ import (
 	"bytes"
 	"context"
 	"sync"
+
+	"github.com/ThreeDotsLabs/watermill/verifhook"
 )
 
 var closedchan = make(chan struct{})
@@ -94,6 +96,8 @@ func (m *Message) Equals(toCompare *Message) bool {
 func (m *Message) Ack() bool {
 	m.ackMutex.Lock()
 	defer m.ackMutex.Unlock()
+	defer verifhook.At("message.ack.unlock", m.UUID)
+	verifhook.At("message.ack.locked", m.UUID)
 
 	if m.ackSentType == nack {
 		return false
@@ -120,6 +124,8 @@ func (m *Message) Ack() bool {
 func (m *Message) Nack() bool {
 	m.ackMutex.Lock()
 	defer m.ackMutex.Unlock()
+	defer verifhook.At("message.nack.unlock", m.UUID)
+	verifhook.At("message.nack.locked", m.UUID)
 
 	if m.ackSentType == ack {
 		return false
